@@ -482,8 +482,15 @@ def differential(opname, fn, self, args, frame):
                             bad = ('shape', 'baseline does not tokenize; the raw value occurs verbatim in the text')
                     else:
                         try:
-                            tp = L.tokenize(ep['text'])
+                            cp, c0 = [], []
+                            tp = L.tokenize(ep['text'], cp)
                             bad = L.compare_streams(t0, tp, v0, vp)
+                            if bad is None:
+                                # the same tokens, yet another text: what differs sits in a comment - a value that reaches the
+                                # driver neither as a parameter nor as a literal (and takes over the statement with a line break)
+                                L.tokenize(e0['text'], c0)
+                                if cp != c0:
+                                    bad = ('comment', f'a comment of the statement carries the value: {cp[:2]!r} (benign run: {c0[:2]!r})')
                         except L.LexError as le:
                             bad = ('shape', f'with the value the statement no longer tokenizes: {le.msg} at {le.pos}')
                 if bad is None:
@@ -537,14 +544,25 @@ class Env:
         return f'{tag}{self.n}' + ''.join(self.rng.choice(frags) for _ in range(k)) + self.rng.choice(['', 'z', '\\', "'"])
 
 
-def new_importer(reset_indexes):
+def debug_logger():
+    """A logger at DEBUG that writes nowhere (an operator tracing statements): what is sent to the driver must not depend on it."""
+    import logging
+    lg = logging.getLogger('verif-c19-debug')
+    lg.setLevel(logging.DEBUG)
+    lg.propagate = False
+    if not lg.handlers:
+        lg.addHandler(logging.NullHandler())
+    return lg
+
+
+def new_importer(reset_indexes, logger=None):
     from fim.graph import neo4j_property_graph as npg
     if reset_indexes:
         npg.Neo4jGraphImporter.index_initialized = False
     M.hub.public = ('Neo4jGraphImporter', '__init__')
     before = len(M.hub.log)
     imp = npg.Neo4jGraphImporter(url='neo4j://stand-in:7687', user='neo4j', pswd='x',
-                                 import_host_dir=M.tmpdir, import_dir=M.tmpdir)
+                                 import_host_dir=M.tmpdir, import_dir=M.tmpdir, logger=logger)
     n = len(M.hub.log) - before
     if reset_indexes:
         note_call('Neo4jGraphImporter', '__init__', n)
@@ -555,9 +573,15 @@ def new_importer(reset_indexes):
 
 def make(cname, gid, imp):
     C = _classes()
+    # handles made by hand log where the importer logs (as the handles the importer itself returns do)
+    lg = getattr(imp, 'log', None)
+    kw = {'logger': lg} if getattr(lg, 'name', '') == 'verif-c19-debug' else {}
     if cname == 'Neo4jARMGraph':
-        return C[cname](graph=C['Neo4jPropertyGraph'](graph_id=gid, importer=imp))
-    return C[cname](graph_id=gid, importer=imp)
+        return C[cname](graph=C['Neo4jPropertyGraph'](graph_id=gid, importer=imp, **kw))
+    try:
+        return C[cname](graph_id=gid, importer=imp, **kw)
+    except TypeError:
+        return C[cname](graph_id=gid, importer=imp)
 
 
 def note_call(cname, meth, nstat):
@@ -1057,7 +1081,17 @@ def one_case(ctx, cname, rng, index):
     # the library draws graph ids / file names from uuid4: make them a function of the case seed
     uuid.uuid4 = lambda: uuid.UUID(int=rng.getrandbits(128), version=4)
     env = Env(ctx, rng, hostile=0.0 if index % 3 == 0 else 0.5)
-    env.imp = imp = new_importer(reset_indexes=True)
+    # every other case runs with a logger at DEBUG handed to the importer (graphs made through it inherit it)
+    import logging
+    if index % 2:
+        # (the harness silences logging process-wide; these cases need it live - every other logger of the process is kept
+        # quiet by raising the root level instead)
+        logging.disable(logging.NOTSET)
+        logging.getLogger().setLevel(logging.CRITICAL + 1)
+        ctx.count('cases:logger-at-debug')
+    else:
+        logging.disable(logging.CRITICAL)
+    env.imp = imp = new_importer(reset_indexes=True, logger=debug_logger() if index % 2 else None)
     call(imp, 'delete_all_graphs')
     M.shadow.clear()
     v = env.val
